@@ -85,9 +85,16 @@ type nativeResult struct {
 	Output   string
 }
 
+// boundsClass: the order in which the bounds checks of one statement are made is not specified (x[0], x[1:] in
+// one assignment: go/ssa indexes first, the gc compiler checks the slice bounds first); both are the same defect.
+func boundsClass(s string) string {
+	s = strings.Replace(s, "PANIC | slice bounds out of range @", "PANIC | out of range @", 1)
+	return strings.Replace(s, "PANIC | index out of range @", "PANIC | out of range @", 1)
+}
+
 func (r *nativeResult) confirms(sig string) bool {
 	for _, f := range r.Failures {
-		if f == sig {
+		if f == sig || (strings.HasPrefix(sig, "PANIC | ") && boundsClass(f) == boundsClass(sig)) {
 			return true
 		}
 		// a crash in a goroutine other than the harness's is reported without signature tags
